@@ -167,6 +167,20 @@ def once_each_scenario(sid, hist):
     return {"id": sid, "role": "", "steps": steps}
 
 
+def pending_window_scenario(sid, a, b, rng):
+    """Description b has been read and parsed by the refresher but not yet adopted by the loop (the next tick will do
+    that): until then requests are routed by a's table, unchanged."""
+    steps = [step([st(op="topo", desc=default_desc(), kind=""), st(op="refresh")]),
+             step([st(op="topo", desc=a[1], kind=a[2]), st(op="refresh")])]
+    steps += probes(a[1], rng)
+    steps.append(step([st(op="topo", desc=b[1], kind=b[2]), st(op="refresh", count=1)]))
+    extra = {s for d in b[1] for lo, hi in d["ranges"] for s in (lo, hi) if 0 <= s <= 16383}
+    steps += probes(a[1], rng, extra=extra)
+    steps.append(step([st(op="refresh")]))
+    steps += probes(b[1], rng)
+    return {"id": sid, "role": "", "steps": steps}
+
+
 def removal_scenario(sid):
     """A request in flight on a silent node while the topology stops listing that node (C15)."""
     cat = {c[0]: c for c in catalogue()}
@@ -346,6 +360,10 @@ def run_generic(pid, tier, seed):
             first = [("failover", "slot-moved"), ("node-removed", "slot-moved"), ("new-replica-healthy", "split-ranges"),
                      ("new-master", "unclaimed-range"), ("slot-moved", "failover"), ("replica-fail-flag", "slot-moved")]
             chosen = [(lab[a], lab[b]) for a, b in first] + pairs[:6 if q else 250]
+            for k, (a, b) in enumerate(chosen):
+                if pid == "C04" and (not q or k < 8):
+                    # between the refresher's publication of b and the tick that adopts it, a's table is in force
+                    scs.append(pending_window_scenario("window-%s+%s" % (a[0], b[0]), a, (b[0], reorder(b[1], ORDERS[k % 4], rng), b[2]), rng))
             for a, b in chosen:
                 scs.append(history_scenario("pair-%s+%s" % (a[0], b[0]), [a, b], rng))
                 scs.append(once_each_scenario("once-%s+%s" % (a[0], b[0]), [a, b]))
